@@ -808,7 +808,8 @@ P('C18', 'other',
 P('C20', 'other',
   [lambda c: RM.r20_1_multiset(c, 'R20.1'),
    lambda c: r13_1_no_param_written(c, 'R20.2', names={'merge_spike_trains', 'psth', 'generate_poisson_spikes'}),
-   lambda c: r_fresh_results(c, 'R20.2', [('pyspike.spikes', 'merge_spike_trains')])],
+   lambda c: r_fresh_results(c, 'R20.2', [('pyspike.spikes', 'merge_spike_trains')]),
+   lambda c: RM.r20_4_poisson(c, 'R20.4')],
   "R20.1 merge_spike_trains derives its spikes from the `.spikes` of every train of the list through concatenation and sorting only (no "
   "de-duplicating, filtering or slicing operation on the path) and carries the first train's interval; psth pools every train before the histogram "
   "call and uses bin_count+1 equally spaced edges from t_start to t_end; R20.2 neither function modifies its inputs, the merged train is fresh."
@@ -1217,7 +1218,50 @@ def _class_averages(ctx, rule: str, classes=('PieceWiseConstFunc', 'PieceWiseLin
     return out
 
 
+def _layer_reconcile(ctx, modules, rule: str) -> List[Ob]:
+    """every entry point reached from `modules` brings its trains onto the common interval before a kernel sees them (R13.2),
+    and the reconciliation keeps exactly the spikes inside that interval, unchanged and in new objects (R13.3)"""
+    fns = _reached_fns(ctx, set(modules))
+    dom = ctx.get('chain-reconcile-dom', lambda c: r13_2_reconcile_dominates(c, 'R13.2'))
+    shape = ctx.get('chain-reconcile-shape', lambda c: RM.r13_3_reconcile_shape(c, 'R13.3'))
+    return _of_fns(dom, fns, rule) + [Ob(rule, o.title, o.status, o.where, o.detail, o.key, o.construct, o.extra) for o in shape]
+
+
+def _layer_defaults(ctx, rule: str) -> List[Ob]:
+    obs = ctx.get('chain-defaults', lambda c: RM.r15_3_defaults(c, 'R15.3'))
+    return [Ob(rule, o.title, o.status, o.where, o.detail, o.key, o.construct, o.extra) for o in obs]
+
+
+def _layer_class_ops(ctx, rule: str, classes=('PieceWiseConstFunc', 'PieceWiseLinFunc', 'DiscreteFunc')) -> List[Ob]:
+    """mul_scalar scales every value array in place by the factor (and nothing else), add() is the definition's sum"""
+    mul = ctx.get('chain-mul', lambda c: RC.mul_scalar_spec(c, 'R09.6'))
+    add = ctx.get('chain-add', lambda c: RC.add_method_spec(c, 'R09.9'))
+    keep = tuple(f"{c}." for c in classes)
+    return [Ob(rule, o.title, o.status, o.where, o.detail, o.key, o.construct, o.extra) for o in mul + add
+            if any(k in (o.key or '') + (o.construct or '') + o.title for k in keep)]
+
+
+def _layer_typestates(ctx, modules, rule: str) -> List[Ob]:
+    """what reaches a kernel call: MRTS resolved to a number (one threshold for the whole call, not one per pair), max_tau
+    defaulted, spike arrays from get_spikes_non_empty / .spikes of reconciled trains - for the calls reached from `modules`"""
+    fns = _reached_fns(ctx, set(modules))
+    ts = ctx.get('chain-typestates', lambda c: r_kernel_call_typestates(c, ('R15.1', 'R16.2', 'R18.4')))
+    mr = ctx.get('chain-mrts-kwargs', lambda c: [o for o in r_kernel_call_typestates(c, ('R05.7', '', '')) if o.rule == 'R05.7'])
+    return _of_fns(ts, fns, rule) + _of_fns(mr, fns, rule)
+
+
+def _layer_plottable(ctx, rule: str) -> List[Ob]:
+    obs = ctx.get('chain-plottable', lambda c: RC.plottable_discrete_spec(c, 'R11.5') + RC.plottable_spec(c, 'PieceWiseConstFunc', 'R10.4')
+                  + RC.plottable_spec(c, 'PieceWiseLinFunc', 'R10.4'))
+    return [Ob(rule, o.title, o.status, o.where, o.detail, o.key, o.construct, o.extra) for o in obs]
+
+
 _CHAIN_TXT = {
+    'typestates': ("{rid} (=R15.1/R16.2/R18.4/R05.7) what reaches a kernel call from these entry points: MRTS already resolved to one "
+                   "number for the whole call (never the string, never re-resolved per pair), max_tau defaulted, spike arrays taken "
+                   "from the reconciled trains."),
+    'plottable': ("{rid} (=R10.4/R11.5) the plottable arrays (including the multiplicity-aware smoothing of discrete profiles, whose left "
+                  "and right scans mirror each other) equal their reference programs."),
     'plumbing': ("{rid} the plumbing between the public entry points and the kernels (carried from C06 / C14, restricted to the functions "
                  "reachable from the entry modules): pair enumeration and summation of the generic drivers (also the single-pair branch "
                  "that serves a two-element list or `indices` naming two trains), position / train-id kinds of every index, and keyword "
@@ -1229,20 +1273,63 @@ _CHAIN_TXT = {
                     "threshold enters every measure called with MRTS='auto')."),
     'ownership': ("{rid} (=R09.2) constructors and copy() of the function classes own their arrays: an operation on a copy cannot change "
                   "what integral / avrg / evaluation of the original return."),
+    'reconcile': ("{rid} (=R13.2/R13.3) every entry point brings its trains onto the common interval before a kernel sees them, and "
+                  "reconciliation keeps exactly the spikes inside that interval (strict comparisons against the edges, nothing re-scaled)."),
+    'defaults': ("{rid} (=R15.3) keyword defaults: resolve_keywords and the kernels agree on MRTS=0, RI=False, max_tau=0 (None), so a "
+                 "setting that is left out means the same on every route."),
+    'class_ops': ("{rid} (=R09.6/R09.9) mul_scalar scales exactly the value arrays by the factor, add() is the definition's sum of two "
+                  "functions: multivariate profiles are built with these two operations."),
 }
+_ISI, _SPK, _SYN, _DIR = 'pyspike.isi_distance', 'pyspike.spike_distance', 'pyspike.spike_sync', 'pyspike.spike_directionality'
 _CHAINS = {
-    'C01': [('R01.11', 'plumbing', lambda c: _plumbing(c, ('pyspike.isi_distance',), 'R01.11'))],
-    'C02': [('R02.11', 'plumbing', lambda c: _plumbing(c, ('pyspike.spike_distance',), 'R02.11')),
-            ('R02.12', 'aux', lambda c: _nonempty_aux(c, 'R02.12'))],
-    'C03': [('R03.10', 'plumbing', lambda c: _plumbing(c, ('pyspike.spike_sync',), 'R03.10'))],
-    'C04': [('R04.10', 'plumbing', lambda c: _plumbing(c, ('pyspike.spike_directionality',), 'R04.10'))],
-    'C06': [('R06.11', 'plumbing', lambda c: _plumbing(c, ('pyspike.isi_distance', 'pyspike.spike_distance', 'pyspike.spike_sync'), 'R06.11'))],
-    'C07': [('R07.10', 'avrg', lambda c: _class_averages(c, 'R07.10'))],
+    'C01': [('R01.11', 'plumbing', lambda c: _plumbing(c, (_ISI,), 'R01.11')),
+            ('R01.12', 'avrg', lambda c: _class_averages(c, 'R01.12', ('PieceWiseConstFunc',))),
+            ('R01.13', 'reconcile', lambda c: _layer_reconcile(c, (_ISI,), 'R01.13')),
+            ('R01.14', 'defaults', lambda c: _layer_defaults(c, 'R01.14')),
+            ('R01.15', 'typestates', lambda c: _layer_typestates(c, (_ISI,), 'R01.15'))],
+    'C02': [('R02.11', 'plumbing', lambda c: _plumbing(c, (_SPK,), 'R02.11')),
+            ('R02.12', 'aux', lambda c: _nonempty_aux(c, 'R02.12')),
+            ('R02.13', 'avrg', lambda c: _class_averages(c, 'R02.13', ('PieceWiseLinFunc',))),
+            ('R02.14', 'reconcile', lambda c: _layer_reconcile(c, (_SPK,), 'R02.14')),
+            ('R02.15', 'defaults', lambda c: _layer_defaults(c, 'R02.15')),
+            ('R02.16', 'typestates', lambda c: _layer_typestates(c, (_SPK,), 'R02.16'))],
+    'C03': [('R03.10', 'plumbing', lambda c: _plumbing(c, (_SYN,), 'R03.10')),
+            ('R03.11', 'avrg', lambda c: _class_averages(c, 'R03.11', ('DiscreteFunc',))),
+            ('R03.12', 'reconcile', lambda c: _layer_reconcile(c, (_SYN,), 'R03.12')),
+            ('R03.13', 'defaults', lambda c: _layer_defaults(c, 'R03.13')),
+            ('R03.14', 'typestates', lambda c: _layer_typestates(c, (_SYN,), 'R03.14'))],
+    'C04': [('R04.10', 'plumbing', lambda c: _plumbing(c, (_DIR,), 'R04.10')),
+            ('R04.11', 'avrg', lambda c: _class_averages(c, 'R04.11', ('DiscreteFunc',))),
+            ('R04.12', 'reconcile', lambda c: _layer_reconcile(c, (_DIR,), 'R04.12')),
+            ('R04.13', 'defaults', lambda c: _layer_defaults(c, 'R04.13')),
+            ('R04.14', 'typestates', lambda c: _layer_typestates(c, (_DIR,), 'R04.14'))],
+    'C05': [('R05.10', 'class_ops', lambda c: _layer_class_ops(c, 'R05.10')),
+            ('R05.11', 'reconcile', lambda c: _layer_reconcile(c, (_ISI, _SPK, _SYN, _DIR), 'R05.11')),
+            ('R05.12', 'plumbing', lambda c: _plumbing(c, (_ISI, _SPK, _SYN, _DIR), 'R05.12'))],
+    'C06': [('R06.11', 'plumbing', lambda c: _plumbing(c, (_ISI, _SPK, _SYN), 'R06.11')),
+            ('R06.12', 'class_ops', lambda c: _layer_class_ops(c, 'R06.12')),
+            ('R06.13', 'reconcile', lambda c: _layer_reconcile(c, (_ISI, _SPK, _SYN), 'R06.13'))],
+    'C07': [('R07.10', 'avrg', lambda c: _class_averages(c, 'R07.10')),
+            ('R07.11', 'reconcile', lambda c: _layer_reconcile(c, (_ISI, _SPK, _SYN, _DIR), 'R07.11'))],
+    'C15': [('R15.8', 'reconcile', lambda c: _layer_reconcile(c, (_ISI, _SPK, _SYN, _DIR), 'R15.8'))],
     'C08': [('R08.7', 'isi_lengths', lambda c: [Ob('R08.7', o.title, o.status, o.where, o.detail, o.key, o.construct, o.extra)
                                                  for o in RM.r15_4_threshold_definition(c, 'R15.4', 'R08.2') if o.rule == 'R15.4']),
-            ('R08.8', 'aux', lambda c: _nonempty_aux(c, 'R08.8'))],
+            ('R08.8', 'aux', lambda c: _nonempty_aux(c, 'R08.8')),
+            ('R08.10', 'reconcile', lambda c: _layer_reconcile(c, (_ISI, _SPK, _SYN, _DIR), 'R08.10')),
+            ('R08.11', 'plottable', lambda c: _layer_plottable(c, 'R08.11'))],
     'C10': [('R10.7', 'ownership', lambda c: r09_2_ownership(c, 'R10.7', {'PieceWiseConstFunc', 'PieceWiseLinFunc'}))],
     'C12': [('R12.8', 'avrg', lambda c: _class_averages(c, 'R12.8'))],
+    'C14': [('R14.8', 'defaults', lambda c: _layer_defaults(c, 'R14.8')),
+            ('R14.9', 'reconcile', lambda c: _layer_reconcile(c, (_ISI, _SPK, _SYN, _DIR), 'R14.9')),
+            ('R14.10', 'typestates', lambda c: _layer_typestates(c, (_ISI, _SPK, _SYN, _DIR), 'R14.10'))],
+    'C16': [('R16.6', 'plumbing', lambda c: _plumbing(c, (_SYN, _DIR), 'R16.6')),
+            ('R16.7', 'defaults', lambda c: _layer_defaults(c, 'R16.7')),
+            ('R16.8', 'reconcile', lambda c: _layer_reconcile(c, (_SYN, _DIR), 'R16.8'))],
+    'C17': [('R17.6', 'defaults', lambda c: _layer_defaults(c, 'R17.6')),
+            ('R17.7', 'reconcile', lambda c: _layer_reconcile(c, (_SYN,), 'R17.7'))],
+    'C18': [('R18.11', 'reconcile', lambda c: _layer_reconcile(c, (_ISI, _SPK, _SYN, _DIR), 'R18.11')),
+            ('R18.12', 'avrg', lambda c: _class_averages(c, 'R18.12')),
+            ('R18.13', 'plumbing', lambda c: _plumbing(c, (_ISI, _SPK, _SYN, _DIR), 'R18.13'))],
 }
 for _pid, _items in _CHAINS.items():
     for _rid, _kind, _fn_ in _items:
